@@ -163,3 +163,26 @@ Example C13_monitor_rejects_deadline_change :
   ~ accepts dpre dpost (mkD KUseToken (Some 400) false)
       [HCall (CallTransmit 0 false None); HEnd 100 (stub_fdl (UseToken 0 None true) 900)].
 Proof. exact deadline_rejects_change. Qed.
+
+(* ------------------------------------------------------------------------------------------ *)
+(* ORACLE SOUNDNESS (Proofs/FdlOracleSound1-5.v; see Properties/C01.v for model_transcript): the monitors
+   never report a rule of C13 (R13_low_prio_after_hold_time - both the coarse bound previous token time + TTR
+   and the exact end of the hold time with the GAP reserve -, R13_second_cycle_after_hold_time,
+   R13_high_prio_inside_hold_time) on a transcript of the model, for ALL input histories (no class
+   excluded), any number of total applications that hand data telegrams to the PHY (`app_sends_data`: what
+   TelegramTx::send_data_telegram produces decodes as a data telegram - an application that put a token
+   on the wire would make the monitors see a token pass).
+   The proof keeps the ghost monitor of C15 (Proofs/C15Proofs.v: Inv) and the deadline of the visit
+   (C13_deadline_as_coded) in step with the executable monitor state (m_tt, m_prev_tt, m_rounds, h_end).
+   It found one false alarm, repaired in Model/FdlOracle.v: when the station re-creates itself (second
+   address collision) its last_token_time is 0 again, the monitor kept the token times of the old station
+   (reproduced on the crate: `FDL 3 7 300 8 1 80000 1 6 10000000 / APP D / ENV on per:8:8 run:89 inj:dc0505
+   run:3 inj:dc0503dc0503 run:2 inj:dc0503dc0503 run:2 on run:100` reported high_prio_inside_hold_time). *)
+From PB Require Import Params C05Proofs FdlOracle FdlOracleSound1 FdlOracleSound5.
+
+Theorem C13_oracle_sound : forall (A : Type) (ops : app_ops A) (p : params),
+  apps_total A ops -> builder_valid p -> app_sends_data A ops ->
+  forall (apps : list A) (ins : list minput), ins_ok 0 ins ->
+  forall k r, In (k, r) (monitor p (length apps) (model_transcript A ops p apps ins)) -> rule_prop r <> PC13.
+Proof. exact c13_oracle_sound. Qed.
+Print Assumptions C13_oracle_sound.
